@@ -45,6 +45,7 @@ func checkC07(c *ev.Ctx) {
 			return
 		}
 		det["output_len"] = len(sink.Buf)
+		noteCarry(c, k.Family, sink.Buf)
 		det["output_head"] = ev.Hex(sink.Buf, 128)
 		ro, info, rerr := ref.DecodeAlone(sink.Buf, 0)
 		fail := func(sig, what string) {
